@@ -44,6 +44,7 @@ class _Rec(BaseEstimator):
             RECORDER.add("fit-raise", self.tag, threading.get_ident(), int(X.shape[0]))
             raise InjectedFault("probe %r told to fail on this call" % (self.tag,))
         self.seen_X_ = numpy.array(X, copy=True)
+        self.given_X_ = X        # the object itself: a model may keep its training features (k-NN, kernels)
         self.seen_y_ = numpy.array(y, copy=True)
         self.seen_w_ = None if sample_weight is None else numpy.array(sample_weight, copy=True)
         self.inner_ = _inner(self.base)
@@ -125,3 +126,18 @@ def rows_to_indices(index, X_sub):
     for r in numpy.ascontiguousarray(X_sub, dtype=float):
         out.append(index.get(r.tobytes(), [-1])[0])
     return numpy.array(out, dtype=int)
+
+
+def kept_arrays_intact(models):
+    """None, or a description: what each recorder was given is still what it holds, and no two share memory."""
+    seen = []
+    for j, m in enumerate(models):
+        g = getattr(m, "given_X_", None)
+        if g is None or not isinstance(g, numpy.ndarray):
+            continue
+        if g.shape != m.seen_X_.shape or not numpy.array_equal(g, m.seen_X_):
+            return "the feature array given to local model %d was overwritten after its fit" % j
+        if any(numpy.shares_memory(g, o) for o in seen):
+            return "two local models were given the same feature buffer"
+        seen.append(g)
+    return None
